@@ -17,6 +17,21 @@ ResNU  == [N |-> DefN, U |-> DefU]
 ResFG  == [F |-> DefF, G |-> DefG]
 
 Dt(S) == [x \in S |-> Data0]
+\* resource constraints (V2 assertions)
+ConsNone == {}
+Cf(r, c) == (r :> c)
+ConF == {Kc("nz", 0, {}), Kc("ex", 0, {}), Kc("ex", 2, {}), Kc("ex", 4, {}), Kc("ex", 6, {}), Kc("al", 0, {}), Kc("al", 2, {}),
+         Kc("al", 4, {}), Kc("al", 5, {}), Kc("al", 6, {}), Kc("exnf", 0, {1})}
+ConN == {Kc("nz", 0, {}), Kc("ex", 2, {}), Kc("ex", 4, {}), Kc("ex", 3, {}), Kc("al", 4, {}), Kc("al", 6, {}), Kc("exnf", 0, {1, 2}),
+         Kc("exnf", 0, {1}), Kc("exnf", 0, {}), Kc("alnf", 0, {1}), Kc("alnf", 0, {1, 3}), Kc("alnf", 0, {})}
+ConBoth == ConF \cup ConN
+\* every single-resource constraint, the empty constraints (ASSERT_WORKTOP_IS_EMPTY / returns nothing), and pairs
+ConsFN == {NoCons} \cup {Cf("F", c) : c \in ConF} \cup {Cf("N", c) : c \in ConN}
+          \cup {[F |-> x[1], N |-> x[2]] : x \in {Kc("al", 2, {}), Kc("ex", 4, {})} \X {Kc("nz", 0, {}), Kc("exnf", 0, {1, 2})}}
+ConsSmallF == {NoCons, Cf("F", Kc("nz", 0, {})), Cf("F", Kc("ex", 2, {})), Cf("F", Kc("al", 4, {}))}
+ConSmallF == {Kc("nz", 0, {}), Kc("ex", 2, {}), Kc("al", 4, {})}
+ConsSmallFN == ConsSmallF \cup {Cf("N", Kc("exnf", 0, {1})), Cf("N", Kc("alnf", 0, {1}))}
+ConSmallFN == ConSmallF \cup {Kc("exnf", 0, {1})}
 \* a1 holds 2 granules, a2 holds 1
 LedF == [vault |-> [a1 |-> [F |-> FC(4)], a2 |-> [F |-> FC(2)]],
          supply |-> [F |-> 6], data |-> <<>>, ever |-> <<>>, ctr |-> <<>>]
@@ -32,8 +47,9 @@ LedNU == [vault |-> [a1 |-> [N |-> NC({1}), U |-> NC({1})], a2 |-> [N |-> C0, U 
 LedFG == [vault |-> [a1 |-> [F |-> FC(4), G |-> FC(2)], a2 |-> [F |-> FC(2), G |-> C0]],
           supply |-> [F |-> 6, G |-> 0], data |-> <<>>, ever |-> <<>>, ctr |-> <<>>]
 
+OpsV2 == {"AssertResOnly", "AssertResInclude", "AssertNextCallOnly", "AssertNextCallInclude", "AssertBucket"}
 OpsCore == {"Withdraw", "TakeFromWorktop", "TakeAll", "ReturnToWorktop", "Deposit", "DepositBatch",
-            "Mint", "Burn", "AssertContains", "AssertAny"}
+            "Mint", "Burn", "AssertContains", "AssertAny"} \cup OpsV2
 OpsCoreNF == OpsCore \cup {"WithdrawNF", "TakeNF", "MintNF", "AssertNF"}
 OpsProofs == {"Withdraw", "TakeFromWorktop", "TakeAll", "ReturnToWorktop", "Deposit", "Burn", "BurnInAccount", "Recall",
               "ProofOfAmount", "BucketProofOfAmount", "BucketProofOfAll", "PopFromAuthZone", "PushToAuthZone",
@@ -213,11 +229,41 @@ ScE == {Sc("e0", <<>>, EntryOps, {"F", "N", "U"}),
         Sc("e3", <<MSR_, TA_("U")>>, BucketUse, {"U"}),
         Sc("e4", <<MR_(2), TA_("U")>>, BucketUse, {"U"}),
         Sc("e5", <<BA_("a1", 2), E_, BN_("a1", {1}), E_>>, EntryOps, {"F", "N", "U"})}
+\* ---- V2 assertions: worktop states {empty, exactly the listed resources, listed + an unlisted one, below / at / above a bound,
+\* zero-amount bucket returned}, bucket contents, next-call returns
+ResAsserts == {"AssertResOnly", "AssertResInclude"}
+ScVw == {Sc("v0", <<>>, ResAsserts, {}),
+         Sc("v1", <<W_("a1", 4)>>, ResAsserts, {}),
+         Sc("v2", <<WN_("a1", "N", {1, 2})>>, ResAsserts, {}),
+         Sc("v3", <<W_("a1", 4), WN_("a1", "N", {1, 2})>>, ResAsserts, {}),
+         Sc("v4", <<W_("a1", 4), WN_("a1", "N", {1, 2}), WN_("a1", "U", {1})>>, ResAsserts, {}),
+         Sc("v5", <<W_("a1", 4), T_(2)>>, ResAsserts, {}),
+         Sc("v6", <<W_("a1", 4), T_(0), Rt_(1)>>, ResAsserts, {}),
+         Sc("v7", <<T_(0), Rt_(1)>>, ResAsserts, {}),
+         Sc("v8", <<W_("a1", 0)>>, ResAsserts, {}),
+         Sc("v9", <<W_("a1", 4), WN_("a1", "U", {1})>>, ResAsserts, {})}
+ScVb == {Sc("vb1", <<W_("a1", 4), TA_("F")>>, {"AssertBucket"}, {}),
+         Sc("vb2", <<WN_("a1", "N", {1, 2}), TA_("N")>>, {"AssertBucket"}, {}),
+         Sc("vb3", <<T_(0)>>, {"AssertBucket"}, {}),
+         Sc("vb4", <<W_("a1", 4), TA_("F"), Rt_(1)>>, {"AssertBucket"}, {}),
+         Sc("vb5", <<W_("a1", 4), T_(2)>>, {"AssertBucket"}, {})}
+ConsNext == {NoCons, Cf("F", Kc("nz", 0, {})), Cf("F", Kc("ex", 2, {})), Cf("F", Kc("ex", 4, {})), Cf("F", Kc("al", 4, {})),
+             Cf("N", Kc("nz", 0, {})), Cf("N", Kc("exnf", 0, {1})), Cf("N", Kc("alnf", 0, {1})),
+             [F |-> Kc("al", 2, {}), N |-> Kc("nz", 0, {})]}
+CName(c) == IF c = NoCons THEN "none" ELSE IF DOMAIN c = {"F", "N"} THEN "FN" ELSE
+            LET r == CHOOSE x \in DOMAIN c : TRUE IN r \o c[r].k \o ToString(c[r].n) \o ToString(Cardinality(c[r].ids))
+NextProbes == {"Withdraw", "WithdrawNF", "Mint", "DepositBatch", "TakeAll"}
+ScVn == {ScA("vn-" \o x[1] \o "-" \o CName(x[2]), <<IC(x[1], 0, x[2])>>, NextProbes, {"F", "N"}, {"a1"})
+         : x \in {"AssertNextCallOnly", "AssertNextCallInclude"} \X ConsNext}
+        \cup {ScA("vp-" \o x[1] \o "-" \o CName(x[2]), <<W_("a1", 2), IC(x[1], 0, x[2])>>, NextProbes \cup {"Burn"}, {"F", "N"}, {"a1"})
+               : x \in {"AssertNextCallOnly", "AssertNextCallInclude"} \X {NoCons, Cf("F", Kc("ex", 2, {})), Cf("F", Kc("ex", 4, {})), Cf("N", Kc("nz", 0, {}))}}
+ScV == ScVw \cup ScVb \cup ScVn
+ScWV == ScW \cup ScX \cup ScV
 ScC03 == ScF \cup ScE \cup {x \in ScW : x.name \in {"w0", "w1"}} \cup {x \in ScH : x.name \in {"h1", "h6", "u5", "u7"}}
 ScC04 == ScF \cup ScE \cup {x \in ScH : x.name \in {"h1", "h4", "u1", "u3", "u5", "u6", "u7"}}
 ScWX == ScW \cup ScX
 ScLX == ScL \cup ScX
-ScAll == ScW \cup ScL \cup ScH \cup ScF \cup ScX \cup ScE
+ScAll == ScW \cup ScL \cup ScH \cup ScF \cup ScX \cup ScE \cup ScV
 NoScripts == {}
 IdsNone == {}
 Ids1 == {{}, {1}, {2}, {3}, {1, 2}}
@@ -241,5 +287,5 @@ InitNU == {LedNU}
 InitFG == {LedFG}
 
 \* everything but the observation of the last instruction (read by action properties only)
-View == <<vault, supply, data, ever, ctr, wt, nb, np, az, sigs, minted, burned, pre, status, nins, ntx, mintCount>>
+View == <<vault, supply, data, ever, ctr, wt, nb, np, az, sigs, nextc, minted, burned, pre, status, nins, ntx, mintCount>>
 =============================================================================
